@@ -681,6 +681,7 @@ pub fn replay_bounded(unit: &str) -> Option<i32> {
         "b_generate_constructed" => run_grid(unit, contract_generate_constructed, limit),
         "b_c04_component_bounds" => run_grid(unit, contract_generate_component_bounds, limit),
         "b_generate_enumerated" => run_grid(unit, contract_generate_enumerated, limit),
+        "b_c04_own_named_number" => run_grid(unit, contract_own_named_number, limit),
         "b_c02_validator_passes" => run_grid(unit, contract_validator_marks_recursion_despite_warnings, limit),
         "b_c03_pipeline_tagging" => run_grid(unit, contract_pipeline_tagging_default_of_the_defining_module, limit),
         "b_c03_format_tag" => run_grid(unit, contract_format_tag, limit),
@@ -2009,6 +2010,43 @@ pub fn contract_pipeline_tagging_default_of_the_defining_module<C: Ctx>(cx: &mut
         let has = |item: &Option<(String, Vec<String>)>, field: &str, want: &str| item.as_ref().map_or(false, |(_, fs)| fs.iter().any(|f| f.contains(&format!("pub {field} :")) && f.contains(want) && (want.contains("explicit") || !f.contains("explicit"))));
         vob!(cx, "C03.pipeline.tag_resolved_with_the_default_of_its_own_module", has(&base, "a", &exp(a == 2, 0)) && has(&own, "d", &exp(b == 2, 3)) && has(&ext, "c", &exp(b == 2, 2)));
         vob!(cx, "C03.pipeline.copied_component_keeps_the_mode_of_the_module_it_was_written_in", has(&ext, "a", &exp(a == 2, 0)) && has(&ext, "b", &exp(a == 2, 1)));
+    }
+    #[cfg(kani)]
+    { let _ = cx; }
+}
+
+/// C04 — a named number used as a bound in the constraint of the very type that declares it
+/// (`A ::= INTEGER { max(10) } (0..max)`) is resolved to that type's own number, whatever other types declare the same
+/// identifier: Validator::validate -> link (the definition is taken out of the map while it is linked).
+pub fn contract_own_named_number<C: Ctx>(cx: &mut C) {
+    #[cfg(not(kani))]
+    {
+        use crate::intermediate::constraints::*;
+        use crate::intermediate::encoding_rules::per_visible::per_visible_range_constraints;
+        use crate::intermediate::types::*;
+        const NAMES: [&str; 3] = ["A", "B", "C"];
+        let k = 1 + cx.choose(3);
+        let mut same_identifier = [false; 3];
+        let mut tlds = vec![];
+        for i in 0..k {
+            same_identifier[i] = i == 0 || cx.any_bool();
+            let ident = if same_identifier[i] { "max".to_string() } else { format!("top{i}") };
+            let c = Constraint::Subtype(ElementSetSpecs { set: ElementOrSetOperation::Element(SubtypeElements::ValueRange { min: Some(ASN1Value::Integer(0)), max: Some(ASN1Value::ElsewhereDeclaredValue { module: None, parent: None, identifier: ident.clone() }), extensible: false }), extensible: false });
+            let ty = ASN1Type::Integer(Integer { constraints: vec![c], distinguished_values: Some(vec![DistinguishedValue { name: ident, value: 10 * (i as i128 + 1) }]) });
+            tlds.push(ToplevelDefinition::Type(ToplevelTypeDefinition { comments: String::new(), tag: None, name: NAMES[i].into(), ty, parameterization: None, module_header: None }));
+        }
+        cx.describe(|| (0..k).map(|i| format!("{} ::= INTEGER {{ {}({}) }} (0..{})", NAMES[i], if same_identifier[i] { "max".to_string() } else { format!("top{i}") }, 10 * (i + 1), if same_identifier[i] { "max".to_string() } else { format!("top{i}") })).collect::<Vec<_>>().join("  "));
+        match crate::validator::Validator::new(tlds).validate() {
+            Ok((out, _)) => {
+                let mut ok = true;
+                for i in 0..k {
+                    let got = out.iter().find_map(|t| match t { ToplevelDefinition::Type(t) if t.name == NAMES[i] => per_visible_range_constraints(true, t.ty.constraints()).ok().map(|r| (r.min::<i128>(), r.max::<i128>())), _ => None });
+                    ok = ok && got == Some((Some(0), Some(10 * (i as i128 + 1))));
+                }
+                vob!(cx, "C04.own_named_number.bound_resolved_to_the_types_own_number", ok);
+            }
+            Err(_) => { vob!(cx, "C04.own_named_number.validates", false); }
+        }
     }
     #[cfg(kani)]
     { let _ = cx; }
